@@ -316,6 +316,26 @@ func c19Gen(r *Rng, tier string) []string {
 				ops = append(ops, fmt.Sprintf("keypair %s %s", u, pickTok()))
 			}
 		}
+		if i%40 == 7 {
+			// guided: sessions that expire WITHOUT being presented again leave stale cache entries behind; then the
+			// profile is re-opened, used, closed, and every token ever issued is tried again
+			ops = []string{"create alice", "create bob", "open bob"}
+			k := 1 + r.N(3)
+			for j := 0; j < k; j++ {
+				ops = append(ops, "openshort alice", "expire")
+			}
+			last := k + 1 // bob's token is t0, alice's short ones t1..tk
+			ops = append(ops, "open alice", fmt.Sprintf("add alice t%d x v1", last))
+			if r.N(2) == 0 {
+				ops = append(ops, fmt.Sprintf("get alice t%d x", last))
+			}
+			ops = append(ops, "close alice")
+			for t := last; t >= 0; t-- {
+				ops = append(ops, fmt.Sprintf("get alice t%d x", t))
+			}
+			ops = append(ops, fmt.Sprintf("keypair alice t%d", last), fmt.Sprintf("getall alice t%d", last), "open alice",
+				fmt.Sprintf("get alice t%d x", last+1), fmt.Sprintf("get alice t%d x", last))
+		}
 		out = append(out, strings.Join(ops, ";"))
 	}
 	return out
